@@ -50,6 +50,15 @@ def run(chk):
     # between one and two gap weights (substitutions are then neither free, nor an insertion + deletion, nor a multiple of the unit)
     mixed = [(2, 2, 3), (2, 4, 3), (3, 3, 4), (2, 2, 1), (3, 3, 5), (4, 4, 7), (6, 4, 5), (2, 2, 5)]
     small = ["CAT", "CAG", "CA", "TTTT", "", "GAT", "CATCAT", "TAC"]
+    # strings that LOOK like missing-value markers are strings ("NA" is asparagine-alanine), and a copy of a metric object measures
+    # what the original measures
+    import copy as _copy
+    tokens = ["NA", "", "NAA", "nan", "None", "NULL", "N", "A", "NaN"]
+    tok_cases = []
+    for (wi, wd, ws) in ((1, 1, 1), (2, 3, 4)):
+        m0 = WeightedLevenshtein(insertion_weight=wi, deletion_weight=wd, substitution_weight=ws) if (wi, wd, ws) != (1, 1, 1) else Levenshtein()
+        for mlabel, metric in (("original", m0), ("copy.copy", _copy.copy(m0)), ("copy.deepcopy", _copy.deepcopy({"m": m0})["m"])):
+            tok_cases.append((wi, wd, ws, mlabel, metric))
     for (wi, wd, ws) in mixed:
         metric = WeightedLevenshtein(insertion_weight=wi, deletion_weight=wd, substitution_weight=ws)
         mf = {"metric": "wlev", "wi": wi, "wd": wd, "ws": ws}
@@ -62,6 +71,13 @@ def run(chk):
         # the SAME object on both sides (every cell, also below the diagonal: with unequal gap weights the matrix is not symmetric)
         ops.append({"op": "cdist_mat", "as": xs_, "bs": xs_, **mf})
         checks.append(("cdist-same-object", {**meta, "ys": "the same object as xs"}, core.call_real(lambda: np.asarray(metric.calc_cdist_matrix(xs_, xs_)))))
+    for (wi, wd, ws, mlabel, metric) in tok_cases:
+        mf = {"metric": "wlev", "wi": wi, "wd": wd, "ws": ws}
+        meta = {"xs": tokens, "ys": tokens[:4], "w": [wi, wd, ws], "metric_object": mlabel}
+        ops.append({"op": "cdist_mat", "as": tokens, "bs": tokens[:4], **mf})
+        checks.append(("cdist", meta, core.call_real(lambda metric=metric: np.asarray(metric.calc_cdist_matrix(tokens, tokens[:4])))))
+        ops.append({"op": "pdist_vec", "xs": tokens, **mf})
+        checks.append(("pdist", meta, core.call_real(lambda metric=metric: np.asarray(metric.calc_pdist_vector(tokens)))))
     for xs in colls:
         ys = rng.choice(colls)
         big = max(len(s) for s in xs + ys) > 100
